@@ -8,6 +8,7 @@ package main
 // allocated in the constructors only and that no other function stores to their fields.
 
 import (
+	"go/token"
 	"fmt"
 	"go/types"
 	"os"
@@ -132,6 +133,13 @@ func (e *Engine) typeInvScan() (bad []string, n int) {
 					case *ssa.Alloc:
 						if isT(x.Type()) {
 							bad = append(bad, fmt.Sprintf("%s allocated outside its constructors in %s", ti.Type, fn.String()))
+						}
+					case *ssa.MapUpdate:
+						// a map held in a field of a long-lived component (a memo, a cache) updated outside the constructors
+						if u, ok := x.Map.(*ssa.UnOp); ok && u.Op == token.MUL {
+							if fa, ok := u.X.(*ssa.FieldAddr); ok && isT(fa.X.Type()) {
+								bad = append(bad, fmt.Sprintf("map held in a field of %s updated in %s", ti.Type, fn.String()))
+							}
 						}
 					case *ssa.Store:
 						if fa, ok := x.Addr.(*ssa.FieldAddr); ok && isT(fa.X.Type()) {
